@@ -20,6 +20,7 @@ structure NodeSlot where
   immCallers : List Nat := []
   immResolved : List Nat := []
   recent : List (Nat × Option MItem) := []
+  boot : List (Nat × Nat) := []
 
 structure DState where
   closest : ClosestNodes := { target := ⟨[]⟩ }
@@ -47,6 +48,9 @@ structure DState where
   immResolved : List Nat := []
   /-- callers of `get_mutable_most_recent`, with the item their fold holds (`Api.mostRecentStep`) -/
   recent : List (Nat × Option MItem) := []
+  /-- callers of `bootstrapped()` and the stage they are in: 0 waits for the first `Info`, 1 for the
+      `find_node` of the own id, 2 for the second `Info` -/
+  boot : List (Nat × Nat) := []
   outSeen : Nat := 0
   -- mnet stream: the other nodes of the case (the current one is loaded into the fields above)
   multi : Bool := false
@@ -362,7 +366,12 @@ def facade (st : DState) (evs : List Event) : DState × List String :=
       else if st.immCallers.contains c then
         (if st.immResolved.contains c then acc else ({ st with immResolved := c :: st.immResolved }, acc.2 ++ [s!"c{c}:none"]))
       else (st, acc.2 ++ [s!"c{c}:end"])
-    | .nodes c l => (st, acc.2 ++ [s!"c{c}:nodes:{showNodes l}"])
+    | .nodes c l =>
+      (match st.boot.find? (·.1 == c) with
+       | some (_, 1) =>
+         -- `bootstrapped()`: the lookup of the own id returned; ask for `Info` again
+         ({ st with boot := (c, 2) :: st.boot.filter (·.1 != c), apiQ := st.apiQ ++ [.info c] }, acc.2)
+       | _ => (st, acc.2 ++ [s!"c{c}:nodes:{showNodes l}"]))
     | .putResult c (.ok t) => (st, acc.2 ++ [s!"c{c}:ok:{bytesToHex t.bytes}"])
     | .putResult c (.error e) =>
       -- `unreachable!("should not receive a concurrency error from …")` in the facades of the puts that
@@ -372,7 +381,14 @@ def facade (st : DState) (evs : List Event) : DState × List String :=
         | _ => false
       if concurrency && st.immCallers.contains (c + 1000000) then (st, acc.2 ++ [s!"c{c}:panic"])
       else (st, acc.2 ++ [s!"c{c}:{showPutErr e}"])
-    | .info c i => (st, acc.2 ++ [s!"c{c}:info:id={bytesToHex i.id.bytes} pub={match i.publicAddress with | none => "none" | some a => showAddr a} fw={if i.firewalled then 1 else 0} mode={if i.serverMode then "s" else "c"} rt={i.rtSize} srt={i.srtSize}"])) (st, [])
+    | .info c i =>
+      match st.boot.find? (·.1 == c) with
+      | some (_, 0) =>
+        ({ st with boot := (c, 1) :: st.boot.filter (·.1 != c),
+                   apiQ := st.apiQ ++ [.get .findNode i.id (.closestNodes c)] }, acc.2)
+      | some (_, _) =>
+        ({ st with boot := st.boot.filter (·.1 != c) }, acc.2 ++ [s!"c{c}:bootstrapped:{if i.rtSize > 0 then "true" else "false"}"])
+      | none => (st, acc.2 ++ [s!"c{c}:info:id={bytesToHex i.id.bytes} pub={match i.publicAddress with | none => "none" | some a => showAddr a} fw={if i.firewalled then 1 else 0} mode={if i.serverMode then "s" else "c"} rt={i.rtSize} srt={i.srtSize}"])) (st, [])
 
 def sortStrings (l : List String) : List String := (l.toArray.qsort (· < ·)).toList
 
@@ -446,6 +462,7 @@ def parseApi (c : Nat) (call : String) (toks : List String) : Option (ApiMsg × 
   | "find_node" => (idOf "t").map fun t => (.get .findNode t (.closestNodes c), false)
   | "closest" => (idOf "t").map fun t => (.get (.getValue none none) t (.closestNodes c), false)
   | "info" => some (.info c, false)
+  | "bootstrapped" => some (.info c, false)
   | _ => none
 
 /-- one scheduler step of the model node -/
@@ -520,6 +537,7 @@ def step3 (st : DState) (toks : List String) : DState × String :=
           let plain := call == "put_imm" || call == "announce" || call == "sannounce"
           ({ st with apiQ := st.apiQ ++ [m],
                      recent := (if call == "get_mut_recent" then [(c, none)] else []) ++ st.recent,
+                     boot := (if call == "bootstrapped" then [(c, 0)] else []) ++ st.boot,
                      immCallers := (if isImm then [c] else []) ++ (if plain then [c + 1000000] else []) ++ st.immCallers }, "ok")
         | none => (st, "bad-op"))
      | _, _ => (st, "bad-op"))
@@ -583,14 +601,14 @@ def saveSlot (st : DState) (i : Nat) : DState :=
   match st.actor with
   | some a =>
     let slot : NodeSlot := { actor := a, nodeAddr := st.nodeAddr, nreqs := st.nreqs, apiQ := st.apiQ,
-                             immCallers := st.immCallers, immResolved := st.immResolved, recent := st.recent }
+                             immCallers := st.immCallers, immResolved := st.immResolved, recent := st.recent, boot := st.boot }
     { st with slots := (i, slot) :: st.slots.filter (·.1 != i), actor := none }
   | none => st
 
 def loadSlot (st : DState) (i : Nat) : Option DState :=
   (st.slots.find? (·.1 == i)).map fun p =>
     { st with actor := some p.2.actor, nodeAddr := p.2.nodeAddr, nreqs := p.2.nreqs, apiQ := p.2.apiQ,
-              immCallers := p.2.immCallers, immResolved := p.2.immResolved, recent := p.2.recent }
+              immCallers := p.2.immCallers, immResolved := p.2.immResolved, recent := p.2.recent, boot := p.2.boot }
 
 /-- mnet stream: several model nodes, ops prefixed with the node index -/
 def step4 (st : DState) (toks : List String) : DState × String :=
@@ -601,7 +619,7 @@ def step4 (st : DState) (toks : List String) : DState × String :=
        if i != st.slots.length then (st, "bad-op") else
        (match mkNodeActor rest st.now with
         | some (a, addr) =>
-          let st1 : DState := { st with actor := some a, nodeAddr := addr, nreqs := [], apiQ := [], immCallers := [], immResolved := [], recent := [] }
+          let st1 : DState := { st with actor := some a, nodeAddr := addr, nreqs := [], apiQ := [], immCallers := [], immResolved := [], recent := [], boot := [] }
           let (st2, out) := step3 st1 ["init"]
           (saveSlot st2 i, out)
         | none => (st, "bad-op"))
